@@ -7,6 +7,8 @@ package PKG
 import (
 	"go/ast"
 	"go/token"
+	r "reflect"
+	"unsafe"
 
 	xr "github.com/cosmos72/gomacro/xreflect"
 )
@@ -20,6 +22,7 @@ var (
 )
 
 type vhBlockSpec struct {
+	emit       func(c *Comp) // when set: the block's code is emitted by this function instead of markers
 	tag, n     int
 	breakAt    int // >= 0: a break statement after this many markers (when the iteration counter matches)
 	continueAt int
@@ -64,6 +67,10 @@ func vhModelExpr(c *Comp, in ast.Expr, t xr.Type) *Expr {
 // a block emits its markers; optionally a real `break` or `continue` statement guarded by the iteration number
 func vhModelBlock(c *Comp, block *ast.BlockStmt) {
 	spec := vhBlocks[block]
+	if spec.emit != nil {
+		spec.emit(c)
+		return
+	}
 	for i := 0; i < spec.n; i++ {
 		if i == spec.breakAt || i == spec.continueAt {
 			// if iteration == onIter { break / continue }   compiled as: conditional skip over the jump
@@ -355,5 +362,235 @@ func VH_C05_gotoLabel() {
 		inner.Goto(&ast.BranchStmt{Tok: token.GOTO, Label: &ast.Ident{Name: "again"}})
 	}()
 	vhAssert(failed, "goto does not cross a function boundary")
+	vhReach("end")
+}
+
+
+// ---- for-range over a slice: the key variable ----
+// Go assigns the key at the start of every iteration from a hidden counter: the body sees 0..n-1 whatever it does to the
+// key, a key assigned with `=` starts from 0 whatever it held before, and after the loop the key variable (visible to
+// closures that captured it, or to the code after the loop for the `=` form) holds the index of the last iteration.
+func VH_C05_rangeSliceKey() {
+	c := vhComp()
+	if vhSymbolic() {
+		u := &xr.Universe{}
+		u.BasicTypes = make([]xr.Type, int(r.UnsafePointer)+1)
+		u.BasicTypes[r.Int] = vhTypeOf(int(0))
+		u.BasicTypes[r.Bool] = vhTypeOf(false)
+		c.CompGlobals.Universe = u
+	}
+	vhLog = nil
+	n := vhPick("slice length", 4)
+	s := make([]int32, n)
+	define := vhBool("the key is declared by the loop (:=) rather than assigned (=)")
+	modify := vhBool("the body increments the key")
+	k0 := vhPick("value of the key variable before the loop", 6)
+	if !define {
+		var zero int
+		c.Binds = map[string]*Bind{"i": &Bind{Lit: Lit{Type: vhTypeOf(zero)}, Desc: IntBind.MakeDescriptor(0), Name: "i"}}
+		c.IntBindNum = 1
+	}
+	erange := exprX1(vhTypeOf(s), func(env *Env) xr.Value { return xr.ValueOf(s) })
+	body := &ast.BlockStmt{}
+	keySlot := func() int { return c.Binds["i"].Desc.Index() }
+	vhBlocks = map[*ast.BlockStmt]vhBlockSpec{body: {emit: func(c *Comp) {
+		slot := keySlot()
+		c.append(func(env *Env) (Stmt, *Env) {
+			p := (*int)(unsafe.Pointer(&env.Ints[slot]))
+			vhLog = append(vhLog, *p)
+			if len(vhLog) > 20 {
+				panic("runaway loop")
+			}
+			if modify {
+				*p++
+			}
+			env.IP++
+			return env.Code[env.IP], env
+		})
+	}}}
+	node := &ast.RangeStmt{Key: &ast.Ident{Name: "i"}, Tok: token.ASSIGN, X: &ast.Ident{Name: "s"}, Body: body}
+	if define {
+		node.Tok = token.DEFINE
+	}
+	var jump rangeJump
+	c.Loop = &LoopInfo{Continue: &jump.Continue, Break: &jump.Break}
+	cerr := false
+	func() {
+		defer func() {
+			if recover() != nil {
+				cerr = true
+			}
+		}()
+		c.rangeSlice(node, erange, &jump)
+		jump.Break = c.Code.Len()
+	}()
+	vhAssert(!cerr, "compiles")
+	if cerr {
+		return
+	}
+	slot := keySlot()
+	c.append(vhMarker(-1))
+	f := c.Code.Exec()
+	env := &Env{Run: &Run{IrGlobals: &IrGlobals{}}}
+	env.Ints, env.Vals = make([]uint64, c.IntBindNum+1), make([]xr.Value, c.BindNum+1)
+	if !define {
+		*(*int)(unsafe.Pointer(&env.Ints[0])) = k0
+	}
+	rec := vhRunRecover(func() { f(env) })
+	vhAssert(rec == nil, "runs")
+	if rec != nil {
+		return
+	}
+	vhAssert(len(vhLog) == n+1 && vhLog[n] == -1, "the body runs once per element, then the loop is left")
+	for it := 0; it < n && it < len(vhLog); it++ {
+		vhAssert(vhLog[it] == it, "iteration number it sees key == it, whatever the body did to the key before")
+	}
+	final := *(*int)(unsafe.Pointer(&env.Ints[slot]))
+	if n > 0 && !modify {
+		vhAssert(final == n-1, "after the loop the key variable holds the index of the last iteration")
+	}
+	if n == 0 && !define {
+		vhAssert(final == k0, "a loop over an empty slice leaves an assigned key untouched")
+	}
+	vhReach("end")
+}
+
+
+// for-range over a string: the key is the byte offset of the current rune, assigned only when an iteration is
+// executed; an assigned (=) value variable that lives in an outer frame is written in that frame
+func VH_C05_rangeStringKey() {
+	c := vhComp()
+	if vhSymbolic() {
+		u := &xr.Universe{}
+		u.BasicTypes = make([]xr.Type, int(r.UnsafePointer)+1)
+		u.BasicTypes[r.Int] = vhTypeOf(int(0))
+		u.BasicTypes[r.Int32] = vhTypeOf(int32(0))
+		u.BasicTypes[r.Bool] = vhTypeOf(false)
+		c.CompGlobals.Universe = u
+	}
+	vhLog = nil
+	cases := [...]string{"", "a", "ab", "h\u00e9y", "\u20acx", "\xffz"}
+	offsets := [...][]int{{}, {0}, {0, 1}, {0, 1, 3}, {0, 3}, {0, 1}}
+	which := vhPick("string", len(cases))
+	str := cases[which]
+	want := offsets[which]
+	k0 := vhPick("value of the key variable before the loop", 6)
+	var zero int
+	c.Binds = map[string]*Bind{"i": &Bind{Lit: Lit{Type: vhTypeOf(zero)}, Desc: IntBind.MakeDescriptor(0), Name: "i"}}
+	c.IntBindNum = 1
+	erange := exprFun(vhTypeOf(str), func(env *Env) string { return str })
+	body := &ast.BlockStmt{}
+	vhBlocks = map[*ast.BlockStmt]vhBlockSpec{body: {emit: func(c *Comp) {
+		c.append(func(env *Env) (Stmt, *Env) {
+			vhLog = append(vhLog, *(*int)(unsafe.Pointer(&env.Ints[0])))
+			if len(vhLog) > 20 {
+				panic("runaway loop")
+			}
+			env.IP++
+			return env.Code[env.IP], env
+		})
+	}}}
+	node := &ast.RangeStmt{Key: &ast.Ident{Name: "i"}, Tok: token.ASSIGN, X: &ast.Ident{Name: "s"}, Body: body}
+	var jump rangeJump
+	c.Loop = &LoopInfo{Continue: &jump.Continue, Break: &jump.Break}
+	cerr := false
+	func() {
+		defer func() {
+			if recover() != nil {
+				cerr = true
+			}
+		}()
+		c.rangeString(node, erange, &jump)
+		jump.Break = c.Code.Len()
+	}()
+	vhAssert(!cerr, "compiles")
+	if cerr {
+		return
+	}
+	c.append(vhMarker(-1))
+	f := c.Code.Exec()
+	env := &Env{Run: &Run{IrGlobals: &IrGlobals{}}}
+	env.Ints, env.Vals = make([]uint64, c.IntBindNum+1), make([]xr.Value, c.BindNum+1)
+	*(*int)(unsafe.Pointer(&env.Ints[0])) = k0
+	rec := vhRunRecover(func() { f(env) })
+	vhAssert(rec == nil, "runs")
+	if rec != nil {
+		return
+	}
+	vhAssert(len(vhLog) == len(want)+1 && vhLog[len(want)] == -1, "one iteration per rune")
+	for it := 0; it < len(want) && it < len(vhLog); it++ {
+		vhAssert(vhLog[it] == want[it], "the key is the byte offset of the rune")
+	}
+	final := *(*int)(unsafe.Pointer(&env.Ints[0]))
+	if len(want) > 0 {
+		vhAssert(final == want[len(want)-1], "after the loop the key holds the offset of the last rune")
+	} else {
+		vhAssert(final == k0, "a loop over the empty string leaves the key untouched")
+	}
+	vhReach("end")
+}
+
+
+// `for _, v = range str` where v is a variable of an enclosing scope: each rune is stored in v's own frame
+func VH_C05_rangeStringOuterValue() {
+	c := vhComp()
+	if vhSymbolic() {
+		u := &xr.Universe{}
+		u.BasicTypes = make([]xr.Type, int(r.UnsafePointer)+1)
+		u.BasicTypes[r.Int] = vhTypeOf(int(0))
+		u.BasicTypes[r.Int32] = vhTypeOf(int32(0))
+		u.BasicTypes[r.Bool] = vhTypeOf(false)
+		c.CompGlobals.Universe = u
+	}
+	vhLog = nil
+	var zero32 int32
+	outer := &Comp{CompGlobals: c.CompGlobals}
+	outer.Binds = map[string]*Bind{"v": &Bind{Lit: Lit{Type: vhTypeOf(zero32)}, Desc: IntBind.MakeDescriptor(1), Name: "v"}}
+	outer.IntBindNum = 2
+	inner := &Comp{CompGlobals: c.CompGlobals, Outer: outer, UpCost: 1, Depth: 1}
+	str := [...]string{"a", "xy", "\u00e9"}[vhPick("string", 3)]
+	wantLast := [...]int32{'a', 'y', 0xe9}
+	erange := exprFun(vhTypeOf(str), func(env *Env) string { return str })
+	body := &ast.BlockStmt{}
+	vhBlocks = map[*ast.BlockStmt]vhBlockSpec{body: {emit: func(c *Comp) {}}}
+	node := &ast.RangeStmt{Key: &ast.Ident{Name: "_"}, Value: &ast.Ident{Name: "v"}, Tok: token.ASSIGN, X: &ast.Ident{Name: "s"}, Body: body}
+	var jump rangeJump
+	inner.Loop = &LoopInfo{Continue: &jump.Continue, Break: &jump.Break}
+	cerr := false
+	func() {
+		defer func() {
+			if recover() != nil {
+				cerr = true
+			}
+		}()
+		inner.rangeString(node, erange, &jump)
+		jump.Break = inner.Code.Len()
+	}()
+	vhAssert(!cerr, "compiles")
+	if cerr {
+		return
+	}
+	inner.append(vhMarker(-1))
+	f := inner.Code.Exec()
+	run := &Run{IrGlobals: &IrGlobals{}}
+	outerEnv := &Env{Run: run}
+	outerEnv.Ints, outerEnv.Vals = make([]uint64, 3), make([]xr.Value, 1)
+	env := &Env{Run: run, Outer: outerEnv}
+	env.Ints, env.Vals = make([]uint64, inner.IntBindNum+2), make([]xr.Value, inner.BindNum+1)
+	before := make([]uint64, len(env.Ints))
+	rec := vhRunRecover(func() { f(env) })
+	vhAssert(rec == nil, "runs")
+	if rec != nil {
+		return
+	}
+	got := *(*int32)(unsafe.Pointer(&outerEnv.Ints[1]))
+	which := 0
+	if str == "xy" {
+		which = 1
+	} else if str != "a" {
+		which = 2
+	}
+	vhAssert(got == wantLast[which], "the outer variable holds the last rune")
+	_ = before
 	vhReach("end")
 }
